@@ -294,6 +294,14 @@ impl DocumentBlock {
             DocumentBlock::Plain(plain) => plain.inlines.clone(),
             DocumentBlock::Para(para) => para.inlines.clone(),
             DocumentBlock::Header(header) => header.inlines.clone(),
+            // links in table cells can be followed and renamed like any other link
+            DocumentBlock::Table(table) => table
+                .header
+                .iter()
+                .chain(table.rows.iter().flatten())
+                .flatten()
+                .cloned()
+                .collect(),
             _ => vec![],
         }
     }
